@@ -8,7 +8,7 @@
 From RV Require Import Prelude.
 From Coq Require Import Permutation Sorted.
 From OnnxRef Require Import RefBase OnnxRef ModelC15 RefBase_proofs Bcast_proofs Transpose_proofs Concat_proofs
-  Slice_proofs Gather_proofs Reduce_proofs Misc_proofs Reshape_proofs TopK_proofs Pool_proofs Oracle_proofs.
+  Slice_proofs Gather_proofs Reduce_proofs Misc_proofs Reshape_proofs TopK_proofs Pool_proofs Clip_proofs Oracle_proofs.
 Open Scope nat_scope.
 
 Theorem C15_get_tab : forall sh f idx,
@@ -637,6 +637,37 @@ Theorem C15_maxpool2d_spec : forall kh kw sh sw pt pl pb pr x y,
       (forall r q, In r (pool_window h kh sh pt i) -> In q (pool_window w kw sw pl j) ->
                    valid (shape x) [b; ch; r; q] /\ (get x [b; ch; r; q] <= get y [b; ch; i; j])%Z).
 Proof. exact maxpool2d_spec. Qed.
+
+(* ONNX Clip: "Min(max, Max(input, min))"; with min <= max the result is the input limited to
+   [min, max]; "when min is greater than max, the operator sets all the input values to max";
+   an absent bound does not constrain *)
+Theorem C15_clip_val_spec : forall lo hi v,
+  clip_val (Some lo) (Some hi) v = Z.min hi (Z.max v lo) /\
+  ((lo <= hi)%Z -> (lo <= clip_val (Some lo) (Some hi) v <= hi)%Z /\
+                   ((lo <= v <= hi)%Z -> clip_val (Some lo) (Some hi) v = v) /\
+                   ((v < lo)%Z -> clip_val (Some lo) (Some hi) v = lo) /\
+                   ((hi < v)%Z -> clip_val (Some lo) (Some hi) v = hi)) /\
+  ((hi < lo)%Z -> clip_val (Some lo) (Some hi) v = hi) /\
+  clip_val (Some lo) None v = Z.max v lo /\ clip_val None (Some hi) v = Z.min hi v /\ clip_val None None v = v.
+Proof. exact clip_val_spec. Qed.
+
+Theorem C15_clip_spec : forall lo hi x idx,
+  wf x -> valid (shape x) idx ->
+  shape (clip lo hi x) = shape x /\ get (clip lo hi x) idx = clip_val lo hi (get x idx).
+Proof. exact clip_spec. Qed.
+
+Theorem C15_relu_leaky_spec : forall alpha x idx,
+  wf x -> valid (shape x) idx ->
+  get (unop relu_val x) idx = Z.max (get x idx) 0 /\
+  get (unop (leaky_relu_val alpha) x) idx = (if (get x idx <? 0)%Z then alpha * get x idx else get x idx)%Z.
+Proof. exact relu_leaky_spec. Qed.
+
+(* variadic Max / Min / Sum: one input is returned unchanged; n+1 inputs = the broadcasting binary
+   operator (C15_binop_spec) applied to the result for the first n inputs and the last input *)
+Theorem C15_variadic_spec : forall f x xs y,
+  variadic f [x] = Some x /\
+  variadic f (x :: xs ++ [y]) = match variadic f (x :: xs) with Some a => binop f a y | None => None end.
+Proof. exact variadic_spec. Qed.
 
 (* one output agrees iff rten reported exactly the reference's element kind, shape and values *)
 Theorem C15_out_eqb_spec : forall r o,
